@@ -69,6 +69,11 @@ type opSpec struct {
 	Note   string `json:"note,omitempty"`
 	Park   string `json:"park,omitempty"`
 	Retx   int    `json:"retx,omitempty"` // N of the step this is a (possibly altered) retransmission of
+	// Gate: each time the request has had to wait for the transaction
+	// of its open-owner, the harness holds it at the clock reading at the
+	// top of enter() (before it reacquires the server lock) until a
+	// "release" step lets it go.
+	Gate bool `json:"gate,omitempty"`
 
 	// One-shot fault the fakes fire for this request (see fakes.go) and
 	// the status it reports (io, access, rofs, nxio).
